@@ -16,6 +16,7 @@ import random
 from vsim import gen as G
 from vsim.gwrun import execute
 from vsim.model import classify_line
+from vsim.universe import gen_universe, run_universe
 
 from marshmallow import ValidationError  # noqa: E402
 from aiomysensors.model.message import Message, MessageSchema  # noqa: E402
@@ -66,6 +67,10 @@ GRID = crossfield_grid()
 def gen(seed: int, i: int, tier: str) -> dict:
     rng = random.Random(f"C02:{seed}:{i}")
     lines = []
+    if i % 5 == 4:
+        # the decoder inside a living gateway: mixed histories with sends (also refused ones), replies, version
+        # switches and re-entry in between - what is accepted may not depend on what happened before
+        return gen_universe(rng, tier)
     if i < len(GRID) // 10 + 1:
         lines = [[ln, "grid"] for ln in GRID[i * 10:(i + 1) * 10]]
         return {"cfg": {"pin": rng.choice(G.PROTOS)}, "lines": lines}
@@ -98,12 +103,10 @@ def gen(seed: int, i: int, tier: str) -> dict:
     return {"cfg": {"pin": rng.choice(G.PROTOS)}, "lines": lines}
 
 
-SHRINK_LISTS = ("lines",)
+SHRINK_LISTS = ("lines", "ops", "tapes")
 
 
 def run(scn):
-    scn2 = {"cfg": scn["cfg"], "ops": [["line", ln] for ln, _ in scn["lines"]]}
-
     def keep(aspect, site):
         # the decoded values are also visible through the error the handler raises for them (node_id / child_id of
         # Missing*Error, which error class): dispatching on other values than the line spells is a decoding fault
@@ -111,6 +114,9 @@ def run(scn):
             return "-wrong" in site or "Missing" in site or "Unsupported" in site
         return True
 
+    if scn.get("kind") == "universe":
+        return run_universe(scn, PROP, ASPECTS, keep=keep)
+    scn2 = {"cfg": scn["cfg"], "ops": [["line", ln] for ln, _ in scn["lines"]]}
     res = execute(scn2, PROP, ASPECTS, keep=keep)
     h = hashlib.sha256(res.digest.encode())
     texts = []
